@@ -207,6 +207,33 @@ func oneRun(c *hx.Ctx, k int, r *rand.Rand, proto string, nclients int, stopDuri
 			cl.graceful = true
 		}(logs[i], seeds[i])
 	}
+	// in runs that call Stop() during traffic, a few extra clients sit in the middle of a message
+	// (header and part of the body written, connection held open) when Stop arrives
+	if stopDuring && stream {
+		for i := 0; i < r.IntN(3); i++ {
+			wg.Add(1)
+			go func(id uint32, cut int) {
+				defer wg.Done()
+				var conn net.Conn
+				var err error
+				if proto == "tls" {
+					conn, err = tls.Dial("tcp", addr, &tls.Config{RootCAs: pool})
+				} else {
+					conn, err = net.Dial("tcp", addr)
+				}
+				if err != nil {
+					return
+				}
+				defer conn.Close()
+				m := dataMsg(id, 1)
+				conn.Write(refipfix.BuildMessage(id, 0, 1, 2, refipfix.EncodeTemplateRecord(700, gen.Fields(elems))))
+				conn.Write(m[:16+cut%(len(m)-16)])
+				<-stopped
+				time.Sleep(2 * time.Millisecond)
+			}(uint32(c.Batch)<<24|0xF00000|uint32(k&0xfff)<<4|uint32(i), r.IntN(1000))
+			c.Add("clients_stuck_mid_message_at_stop", 1)
+		}
+	}
 	var stopDur time.Duration
 	var stopOK bool
 	stopCalledEarly := false
